@@ -62,6 +62,24 @@ pub fn run(only: &[String]) -> Vec<String> {
         }
         if fails.len() >= 3 { break; }
     }
+    // a class with a symmetry: (sub x y) = (sub y x); then every arrangement is known, and so are terms built on it
+    if fails.len() < 3 {
+        let mut eg: EGraph<IL> = EGraph::default();
+        let a = eg.add_expr(RecExpr::parse("(sub (var $x) (var $y))").unwrap());
+        let b = eg.add_expr(RecExpr::parse("(sub (var $y) (var $x))").unwrap());
+        eg.union(&a, &b);
+        let outer = eg.add_expr(RecExpr::parse("(app (sub (var $x) (var $y)) (var $x))").unwrap());
+        let classes = eg.ids().len();
+        for text in ["(sub (var $p) (var $q))", "(sub (var $q) (var $p))", "(app (sub (var $q) (var $p)) (var $p))"] {
+            verif_case(format!("commutative sub: {}", text));
+            let re = RecExpr::<IL>::parse(text).unwrap();
+            let l = lookup_rec_expr(&re, &eg);
+            let r = eg.add_expr(re);
+            if l.is_none() || eg.ids().len() != classes || l.as_ref() != Some(&r) { fails.push(format!("FAIL {} C09:add.known-terms-create-nothing commutative (sub x y) = (sub y x): {} looked up as {:?}, added as {:?}, classes {} -> {}", label, text, l, r, classes, eg.ids().len())); }
+        }
+        let swapped = eg.add_expr(RecExpr::parse("(app (sub (var $y) (var $x)) (var $x))").unwrap());
+        if !eg.eq(&outer, &swapped) { fails.push(format!("FAIL {} C09:add.agrees-with-lookup commutative sub: (app (sub y x) x) is not the class of (app (sub x y) x)", label)); }
+    }
     // a stored node with a redundant slot: union (sub x y) with (tri ..) whose three arguments are x, y and w in every
     // order; w becomes redundant; then tri(t0,t1,t2) must equal sub(t[pos of x], t[pos of y]) for all names
     if fails.len() < 3 {
